@@ -20,6 +20,9 @@ def run(ctx):
     s3, m3 = sc.trap_schedules(ctx, "Server_trap16u.cfg", ["TrapLateHandler"], [0], mode="bfs")
     scheds += s3
     missing += m3
+    s4, m4 = sc.trap_schedules(ctx, "Server_trap16c.cfg", ["TrapClientGoneDuringHandler", "TrapTornDownDuringHandler"], [0], mode="bfs")
+    scheds += s4
+    missing += m4
     # Go chooses at random among ready select cases: every window schedule is replayed several times
     scheds = [dict(s, id="%s-r%d" % (s["id"], k)) for s in scheds for k in range(12)]
     if not ctx.quick:
